@@ -1,0 +1,27 @@
+//go:build verif
+
+package server
+
+import "sync/atomic"
+
+// Verification hooks, compiled only with the build tag "verif".
+//
+// verifYield marks a point at which a test harness may reschedule the calling
+// goroutine (runtime.Gosched, or a sleep on a fake clock) to diversify the
+// interleavings of the receive, send, FSM and management goroutines. Points
+// whose name starts with "locked." are reached while a lock is held. Without
+// an installed function the call does nothing.
+//
+// peer is the neighbor on whose behalf the goroutine runs ("" for the
+// management loop and locally originated routes).
+var verifYieldFn atomic.Pointer[func(point, peer string)]
+
+func verifYield(point string, f *fsm) {
+	if fn := verifYieldFn.Load(); fn != nil {
+		peer := ""
+		if f != nil {
+			peer = f.pConf.ReadOnly().State.NeighborAddress.String()
+		}
+		(*fn)(point, peer)
+	}
+}
